@@ -1,6 +1,6 @@
 """Per-property configuration of ./check: Lean modules (theorems), correspondence streams, oracles."""
 
-ALL_FAMILIES = "seeds_sample,grammar,layout,soup,bytes,mutate"
+ALL_FAMILIES = "seeds_sample,grammar,layout,soup,bytes,mutate,dirsoup"
 
 FMT_BINDING_C01 = ["marks", "lv", "prec", "wc", "nd", "out", "*"]
 
@@ -44,7 +44,7 @@ PROPS = {
         "level": "other",
         "lean": ["PasfmtModel.Props.C03"],
         "streams": [
-            {"stream": "fmt", "families": "seeds_sample,grammar,layout,regions,mlsfam,marked,boundary,boundary,mlscancel,condinline", "quick": 3200, "thorough": 50000,
+            {"stream": "fmt", "families": "seeds_sample,grammar,layout,regions,mlsfam,marked,boundary,boundary,mlscancel,mlsshift,condinline", "quick": 3200, "thorough": 50000,
              "binding": ["prec", "out", "*"], "args": {"oracles": "c03"}},
         ],
         "oracle_prefixes": ["c03", "glue"],
@@ -58,7 +58,7 @@ PROPS = {
         "level": "other",
         "lean": ["PasfmtModel.Props.C05"],
         "streams": [
-            {"stream": "fmt", "families": "marked", "quick": 6000, "thorough": 40000, "binding": ["out", "*"], "args": {"oracles": "c05"}},
+            {"stream": "fmt", "families": "marked", "quick": 6000, "thorough": 40000, "binding": ["cl", "out", "*"], "args": {"oracles": "c05"}},
         ],
         "oracle_prefixes": ["c05", "glue"],
         "abnormal_binding": False,
@@ -105,9 +105,9 @@ PROPS = {
         "level": "other",
         "lean": ["PasfmtModel.Props.C04"],
         "streams": [
-            {"stream": "fmt", "families": "soup,bytes,mutate,directives,seeds_sample,layout,deepnest", "quick": 4200, "thorough": 80000,
+            {"stream": "fmt", "families": "soup,bytes,mutate,directives,dirsoup,seeds_sample,layout,deepnest", "quick": 4200, "thorough": 80000,
              "binding": ["*"], "args": {"oracles": "c15,c04", "timeout_ms": 20000}},
-            {"stream": "parse", "families": "soup,bytes,mutate,directives,layout", "quick": 3000, "thorough": 40000, "name": "counters"},
+            {"stream": "parse", "families": "soup,bytes,mutate,directives,dirsoup,layout", "quick": 3000, "thorough": 40000, "name": "counters"},
             {"stream": "fmt", "name": "enum", "families": "soup_enum", "quick": 3000, "thorough": 1010100, "multi_seed": False,
              "binding": ["*"], "args": {"timeout_ms": 20000}},
         ],
@@ -127,6 +127,9 @@ PROPS = {
         "lean": ["PasfmtModel.Props.C14"],
         "streams": [
             {"stream": "parse", "families": ALL_FAMILIES + ",directives", "quick": 4000, "thorough": 60000},
+            # the three post-parse consolidators (exact models): kinds and lines after them, computed from the parser's own output
+            {"stream": "fmt", "name": "consolidators", "families": ALL_FAMILIES + ",directives,condinline,marked,regions", "quick": 3000, "thorough": 40000,
+             "binding": ["ck", "cl"], "args": {"oracles": "c14"}},
         ],
         "oracle_prefixes": ["c14"],
         "abnormal_binding": False,
@@ -145,7 +148,7 @@ PROPS = {
         "lean": ["PasfmtModel.Props.C07"],
         "streams": [
             {"stream": "fmt", "families": ALL_FAMILIES + ",regions", "quick": 3000, "thorough": 40000,
-             "binding": ["marks", "lv", "prec", "wc", "out", "*"], "args": {"oracles": "c07"}},
+             "binding": ["cl", "marks", "lv", "prec", "wc", "out", "*"], "args": {"oracles": "c07"}},
         ],
         "oracle_prefixes": ["c07", "glue"],
         "abnormal_binding": False,
@@ -162,7 +165,7 @@ PROPS = {
         "level": "proof",
         "lean": ["PasfmtModel.Props.C08"],
         "streams": [
-            {"stream": "fmt", "families": ALL_FAMILIES + ",pairs,condinline", "quick": 3500, "thorough": 40000,
+            {"stream": "fmt", "families": ALL_FAMILIES + ",pairs,condinline,mlsshift", "quick": 3500, "thorough": 40000,
              "binding": ["pre", "out", "*"], "args": {"oracles": "c08"}},
         ],
         "oracle_prefixes": ["c08", "glue"],
@@ -208,7 +211,7 @@ PROPS = {
         "level": "proof",
         "lean": ["PasfmtModel.Props.C12"],
         "streams": [
-            {"stream": "fmt", "families": "mlsfam,mlsfam,seeds_sample,layout,bytes", "quick": 3000, "thorough": 40000,
+            {"stream": "fmt", "families": "mlsfam,mlsfam,mlsshift,seeds_sample,layout,bytes", "quick": 3000, "thorough": 40000,
              "binding": ["wc", "prec", "out", "*"], "args": {"oracles": "c12"}},
         ],
         "oracle_prefixes": ["c12", "glue"],
